@@ -675,3 +675,149 @@ Proof.
   exists (NSeq [NMap (setf "filter_external_labels" (NBool false) (setf "url" (NStr "http://x/") d_rr))]).
   eexists. split; [vm_compute; reflexivity|]. split; vm_compute; reflexivity.
 Qed.
+
+(* ------------------------------------------------------------------ where losses can happen *)
+Open Scope list_scope.
+Section Risky.
+  Variable reset : hook -> option node.
+
+  (* the omitempty fields whose load-time base is not zero: the only places where print can
+     drop information *)
+  Fixpoint risky (t : ty) (cur : node) (path : string) : list string :=
+    match t with
+    | TPtr t' => risky t' (match cur with NNull => zero t' | _ => cur end) path
+    | TSeq t' => risky t' (zero t') path
+    | TRec h fs =>
+        match base_of reset h cur with
+        | NMap bm => riskys fs bm path
+        | _ => []
+        end
+    | _ => []
+    end
+  with riskys (fs : flds) (bm : amap) (path : string) : list string :=
+    match fs, bm with
+    | FCons k omit t r, (_, b) :: bm' =>
+        (if omit && negb (isz t b) then [(path ++ "." ++ k)%string] else [])
+        ++ risky t b (path ++ "." ++ k)%string ++ riskys r bm' path
+    | _, _ => []
+    end.
+
+  (* all bases are well-typed *)
+  Fixpoint bases_wt (t : ty) (cur : node) : bool :=
+    match t with
+    | TPtr t' => bases_wt t' (match cur with NNull => zero t' | _ => cur end)
+    | TSeq t' => bases_wt t' (zero t')
+    | TRec h fs =>
+        match base_of reset h cur with
+        | NMap bm => wtsb fs bm && bases_wts fs bm
+        | _ => false
+        end
+    | _ => true
+    end
+  with bases_wts (fs : flds) (bm : amap) : bool :=
+    match fs, bm with
+    | FNil, [] => true
+    | FCons _ _ t r, (_, b) :: bm' => wtb t b && bases_wt t b && bases_wts r bm'
+    | _, _ => false
+    end.
+End Risky.
+
+(* a type has one well-typed zero value *)
+Lemma isz_unique_mut :
+  (forall t a b, wtb t a = true -> wtb t b = true -> isz t a = true -> isz t b = true -> a = b) /\
+  (forall fs a b, wtsb fs a = true -> wtsb fs b = true -> iszs fs a = true -> iszs fs b = true -> a = b).
+Proof.
+  apply ty_flds_ind.
+  - intros a b Ha Hb Za Zb. destruct a, b; simpl in *; try discriminate. apply Z.eqb_eq in Za, Zb. congruence.
+  - intros a b Ha Hb Za Zb. destruct a, b; simpl in *; try discriminate. apply String.eqb_eq in Za, Zb. congruence.
+  - intros a b Ha Hb Za Zb. destruct a, b; simpl in *; try discriminate. destruct b0, b; simpl in *; try discriminate; reflexivity.
+  - intros a b Ha Hb Za Zb. destruct a, b; simpl in *; try discriminate; reflexivity.
+  - intros t IH a b Ha Hb Za Zb. destruct a, b; simpl in *; try discriminate; reflexivity.
+  - intros t IH a b Ha Hb Za Zb. destruct a as [| | | |[|]|], b as [| | | |[|]|]; simpl in *; try discriminate; reflexivity.
+  - intros h fs IH a b Ha Hb Za Zb. destruct a, b; simpl in *; try discriminate. f_equal. now apply IH.
+  - intros a b Ha Hb Za Zb. destruct a, b; simpl in *; try discriminate; reflexivity.
+  - intros k o t IHt r IHr a b Ha Hb Za Zb.
+    destruct a as [|[ka va] a], b as [|[kb vb] b]; simpl in *; try discriminate.
+    apply andb_true_iff in Ha as [Ha Ha3]. apply andb_true_iff in Ha as [Ha1 Ha2].
+    apply andb_true_iff in Hb as [Hb Hb3]. apply andb_true_iff in Hb as [Hb1 Hb2].
+    apply andb_true_iff in Za as [Za1 Za2]. apply andb_true_iff in Zb as [Zb1 Zb2].
+    apply String.eqb_eq in Ha1, Hb1. subst. f_equal; [f_equal|]; auto.
+Qed.
+
+Section RiskyThm.
+  Variable reset : hook -> option node.
+  Notation lossy := (lossy reset).
+  Notation lossys := (lossys reset).
+  Notation risky := (risky reset).
+  Notation riskys := (riskys reset).
+  Notation bases_wt := (bases_wt reset).
+  Notation bases_wts := (bases_wts reset).
+
+  Lemma lossy_in_risky_mut :
+    (forall t cur v path x, bases_wt t cur = true -> wtb t v = true ->
+        In x (lossy t cur v path) -> In x (risky t cur path)) /\
+    (forall fs bm m path x, bases_wts fs bm = true -> wtsb fs m = true ->
+        In x (lossys fs bm m path) -> In x (riskys fs bm path)).
+  Proof.
+    apply ty_flds_ind.
+    - intros cur v path x _ _ H. destruct v; simpl in H; contradiction.
+    - intros cur v path x _ _ H. destruct v; simpl in H; contradiction.
+    - intros cur v path x _ _ H. destruct v; simpl in H; contradiction.
+    - intros cur v path x _ _ H. destruct v; simpl in H; contradiction.
+    - intros t IH cur v path x Hb Hw H. simpl in Hb. simpl.
+      destruct v; simpl in H, Hw; try contradiction; eapply IH; eauto.
+    - intros t IH cur v path x Hb Hw H. simpl in Hb. simpl.
+      destruct v; simpl in H, Hw; try contradiction.
+      apply in_flat_map in H as [e [He Hx]].
+      eapply IH; eauto. eapply forallb_forall in Hw; eauto.
+    - intros h fs IH cur v path x Hb Hw H. simpl in Hb. simpl.
+      destruct v; simpl in H, Hw; try contradiction.
+      destruct (base_of reset h cur); try contradiction.
+      apply andb_true_iff in Hb as [_ Hb]. eapply IH; eauto.
+    - intros bm m path x _ _ H. destruct bm, m; simpl in H; contradiction.
+    - intros k o t IHt r IHr bm m path x Hb Hw H.
+      destruct bm as [|[kb b] bm'], m as [|[k' v] m']; simpl in H, Hb, Hw; try contradiction; try discriminate.
+      apply andb_true_iff in Hb as [Hb Hb3]. apply andb_true_iff in Hb as [Hb1 Hb2].
+      apply andb_true_iff in Hw as [Hw Hw3]. apply andb_true_iff in Hw as [Hw1 Hw2].
+      simpl. apply in_app_or in H as [H|H].
+      + destruct (o && isz t v) eqn:Eo.
+        * destruct (node_eqb b v) eqn:Eq; simpl in H; [contradiction|].
+          destruct H as [<-|[]]. apply in_or_app. left.
+          apply andb_true_iff in Eo as [-> Ez]. simpl.
+          destruct (isz t b) eqn:Ezb; simpl; [|now left].
+          exfalso. assert (b = v) by (eapply (proj1 isz_unique_mut); eauto).
+          subst. rewrite node_eqb_refl in Eq. discriminate.
+        * apply in_or_app. right. apply in_or_app. left. eapply IHt; eauto.
+      + apply in_or_app. right. apply in_or_app. right. eapply IHr; eauto.
+  Qed.
+End RiskyThm.
+
+Open Scope string_scope.
+
+(* the risky fields of the Prometheus schema (modelled part) *)
+Definition risky_fields : list string := risky reset top_ty (NMap d_top) "".
+
+Lemma risky_fields_list : risky_fields =
+  [ ".runtime"; ".runtime.gogc"; ".alerting.alert_relabel_configs.action";
+    ".alerting.alertmanagers.scheme"; ".alerting.alertmanagers.timeout";
+    ".alerting.alertmanagers.relabel_configs.action";
+    ".alerting.alertmanagers.alert_relabel_configs.action";
+    ".scrape_configs.metrics_path"; ".scrape_configs.scheme";
+    ".scrape_configs.relabel_configs.action"; ".scrape_configs.metric_relabel_configs.action";
+    ".remote_write.remote_timeout"; ".remote_write.write_relabel_configs.action";
+    ".remote_write.protobuf_message"; ".remote_write.queue_config";
+    ".remote_write.queue_config.capacity"; ".remote_write.queue_config.max_shards";
+    ".remote_write.queue_config.min_shards"; ".remote_write.queue_config.max_samples_per_send";
+    ".remote_write.queue_config.batch_send_deadline"; ".remote_write.queue_config.min_backoff";
+    ".remote_write.queue_config.max_backoff"; ".remote_write.metadata_config";
+    ".remote_write.metadata_config.max_samples_per_send";
+    ".remote_read.remote_timeout"; ".remote_read.chunked_read_limit"; ".remote_read.filter_external_labels";
+    ".otlp"; ".otlp.translation_strategy"; ".otlp.label_name_underscore_sanitization";
+    ".otlp.label_name_preserve_multiple_underscores" ].
+Proof. vm_compute. reflexivity. Qed.
+
+Theorem lossy_only_risky : forall c x, wtb top_ty c = true -> In x (lossy_fields c) -> In x risky_fields.
+Proof.
+  intros c x Hw H. unfold lossy_fields in H. unfold risky_fields.
+  eapply (proj1 (lossy_in_risky_mut reset)); [vm_compute; reflexivity | exact Hw | exact H].
+Qed.
